@@ -5,6 +5,26 @@ import ast
 
 from __main__ import Fact, const_num, lean_str
 
+import importlib.util
+import os
+import sys
+
+
+def _load_norm():
+    """tools/extractors/normalise_rpc.py, loaded once per process under a name of its own (sys.path is left alone)."""
+    name = "jrv_normalise_rpc"
+    if name not in sys.modules:
+        spec = importlib.util.spec_from_file_location(
+            name, os.path.join(os.path.dirname(os.path.abspath(__file__)), "normalise_rpc.py"))
+        mod = importlib.util.module_from_spec(spec)
+        sys.modules[name] = mod
+        spec.loader.exec_module(mod)
+    return sys.modules[name]
+
+
+norm = _load_norm()
+
+
 PROPERTIES = ["C14"]
 
 
@@ -68,7 +88,11 @@ def _id_test(fn):
     The test deciding that an id must be generated:
       'none-or-empty-string'  for `self.id is None or self.id == ""`
       'falsy'                 for `not self.id`
+    Read on the canonical form: `if a: X elif b: X` is `if a or b: X`, `if c: pass else: X` is `if not c: X`.
     """
+    fn = norm.clone(fn)
+    norm.negation_normal(fn)
+    norm.merge_duplicate_branches(fn)
     for n in ast.walk(fn):
         if isinstance(n, ast.If):
             if not _calls_uuid_module(n.body):
@@ -100,6 +124,8 @@ def _forced_id_test(fn):
     `if rpcid is not None:`, else 'other:…'; None when there is no such `if`."""
     if fn is None:
         return None
+    # canonical form: `if rpcid is None: pass else: store` and `if not (rpcid is None): store` are `if rpcid is not None: store`
+    fn = norm.negation_normal(norm.clone(fn))
     for n in ast.walk(fn):
         if isinstance(n, ast.If):
             stores = any(isinstance(m, ast.Attribute) and m.attr == "rpcid" and isinstance(m.ctx, ast.Store)
@@ -121,7 +147,7 @@ def _response_result(fn):
     if fn is None:
         return None
     found = None
-    for n in ast.walk(fn):
+    for n in (m for m, _c in norm.eval_order(fn)):      # evaluation order: the last store into the member wins
         if isinstance(n, ast.Dict):
             for k, v in zip(n.keys, n.values):
                 if isinstance(k, ast.Constant) and k.value == "result":
@@ -138,6 +164,7 @@ def _response_result(fn):
 
 
 def facts(src):
+    src = norm.nsource(src)
     req = src.func("jsonrpc", "Payload.request")
     th = _thresholds(req) if req is not None else None
     idt = _id_test(req) if req is not None else None
